@@ -175,7 +175,11 @@ func (e *Engine) findClosure(fn *ssa.Function, name string) *ssa.Function {
 			if !ok || al.Comment != name {
 				continue
 			}
-			switch v := st.Val.(type) {
+			val := st.Val
+			if ct, ok := val.(*ssa.ChangeType); ok {
+				val = ct.X // a function literal assigned to a variable of a named function type
+			}
+			switch v := val.(type) {
 			case *ssa.MakeClosure:
 				return v.Fn.(*ssa.Function)
 			case *ssa.Function:
